@@ -47,8 +47,8 @@ def gen_desc(rng, k):
         repl = {}
         lines = [native(1, ["He+", "e-"], ["He"]), native(2, ["H", "H"], ["H2"]), native(3, ["C", "O"], ["CO"]),
                  native(4, ["H", "CR"], ["H+", "e-"], ty=101), native(5, ["H+", "e-"], ["H"], b=-0.5), native(6, ["CO", "He+"], ["C+", "O", "He"]),
-                 native(7, ["H2", "C+"], ["CH+", "H"], c=4640.0)]
-        names = ["He", "He+", "e-", "H", "H2", "C", "O", "CO", "H+", "C+", "CH+"]
+                 native(7, ["H2", "C+"], ["CH+", "H"], c=4640.0), native(8, ["He++", "e-"], ["He+"], b=-0.7)]
+        names = ["He", "He+", "e-", "H", "H2", "C", "O", "CO", "H+", "C+", "CH+", "He++"]
     method = rng.choice(["dense", "sparse", "rosenbrock4"])
     d = {"elements": elements, "pseudo": pseudo, "replacement": repl, "kwargs": {
         "grain_symbol": rng.choice(["GRAIN", "GRAIN", "DUST"]), "surface_prefix": rng.choice(["#", "#", "G"]),
@@ -70,7 +70,7 @@ def gen_desc(rng, k):
         tgts = rng.sample(["H2", "CO", "H"], rng.randint(1, 2))
         for _ in range(rng.randint(1, 4)):
             tgt = rng.choice(tgts)
-            fact, dep = rng.choice(["1e-3", "-2.0*k[0]", "-1.5e-2", "0.25"]), rng.sample(["H", "CO", "He"], rng.randint(1, 2))
+            fact, dep = rng.choice(["1e-3", "-2.0*k[0]", "-1.5e-2", "0.25"]), rng.sample(["H", "CO", "He", "He+", "He++", "e-", "C+"], rng.randint(1, 2))
             om.setdefault(tgt, {"factors": [], "reactants": []})
             om[tgt]["factors"].append(fact)
             om[tgt]["reactants"].append(dep)
